@@ -140,6 +140,15 @@ pub fn run(args: &Args) {
         let cap = if kinds[0] || kinds[1] { 120 } else { 124 };
         let (d0, d1) = if i == 0 { (4_000_000_000_000_000_000u128, 3u128 + 1_000_000_000) } else { (magnitude(&mut rng, cap).max(2000), magnitude(&mut rng, cap).max(2000)) };
         if w.provide("alice", d0, d1, None, None).is_err() { out.count("sim:provide_rejected"); continue; }
+        // every other pool first trades in both directions, so that protocol fees are pending on BOTH assets when it is quoted;
+        // the reserves the quote must be computed from are then the reported ones (balance - pending fee)
+        let (mut d0, mut d1) = (d0, d1);
+        if i % 2 == 0 && i > 0 {
+            let _ = std::panic::catch_unwind(std::panic::AssertUnwindSafe(|| { let _ = w.swap("bob", 0, d0 / 7 + 1, None, Some(dec(DEC / 2)), None); let _ = w.swap("carol", 1, d1 / 9 + 1, None, Some(dec(DEC / 2)), None); }));
+            if let Ok(p) = w.query_pool() { d0 = p.assets[0].amount.u128(); d1 = p.assets[1].amount.u128(); }
+            let pend = w.fees_query(false);
+            out.count(if pend[0] > 0 && pend[1] > 0 { "sim:pending_fees_both" } else { "sim:pending_fees_not_both" });
+        }
         for _ in 0..4 {
             let dir = rng.below(2) as usize;
             let x = magnitude(&mut rng, 127);
